@@ -537,13 +537,14 @@ func filterpath(peer *peer, path, old *table.Path) *table.Path {
 		if ignore {
 			if !path.IsWithdraw && old != nil {
 				oldSource := old.GetSource()
-				if old.IsLocal() || oldSource.Address.String() != peer.ID() && oldSource.AS != peer.AS() {
+				if old.IsLocal() || oldSource.Address.String() != peer.ID() && (oldSource.AS != peer.AS() || oldSource.RouteReflectorClient) {
 					// In this case, we suppose this peer has the same prefix
 					// received from another iBGP peer.
 					// So we withdraw the old best which was injected locally
 					// (from CLI or gRPC for example) in order to avoid the
 					// old best left on peers.
-					// Also, we withdraw the eBGP route which is the old best.
+					// Also, we withdraw the eBGP route which is the old best,
+					// and the old best reflected from a route reflector client.
 					// When we got the new best from iBGP, we don't advertise
 					// the new best and need to withdraw the old best.
 					return old.Clone(true)
